@@ -4259,16 +4259,20 @@ def Gillespie_simple_contagion(G, spontaneous_transition_graph,
                     #add edge to any induced lists
 
                     nbr_status = status[nbr]
+                    #for a self-loop the partner is the modified node itself: its previous status is old_status
+                    nbr_old_status = old_status if nbr == modified_node else nbr_status
                     
                     if (modified_node, nbr) not in get_weight[transition]:
                         get_weight[transition][(modified_node,nbr)] = get_weight[transition][(nbr,modified_node)]
-                    if transition[0] == (old_status, nbr_status):
+                    if transition[0] == (old_status, nbr_old_status):
                         potential_transitions[transition].remove((modified_node, nbr))
                     if transition[0] == (status[modified_node], nbr_status):
                         potential_transitions[transition].update((modified_node, nbr), weight_increment = get_weight[transition][(modified_node, nbr)])
                 for pred in G.predecessors(modified_node):
                     #remove edge from any induced lists
                     #add edge to any induced lists
+                    if pred == modified_node:
+                        continue  #self-loop: the pair was dealt with in the loop above
 
                     pred_status = status[pred]
                     if (pred, modified_node) not in get_weight[transition]:
@@ -4282,18 +4286,21 @@ def Gillespie_simple_contagion(G, spontaneous_transition_graph,
                     #remove edge from any induced lists
                     #add edge to any induced lists
                     nbr_status = status[nbr]
+                    #for a self-loop the partner is the modified node itself: its previous status is old_status,
+                    #and (nbr, modified_node) is the same pair as (modified_node, nbr)
+                    nbr_old_status = old_status if nbr == modified_node else nbr_status
                     
                     if (modified_node, nbr) not in get_weight[transition]:
                         get_weight[transition][(modified_node,nbr)] = get_weight[transition][(nbr,modified_node)]
                     elif (nbr, modified_node) not in get_weight[transition]:
                         get_weight[transition][(nbr, modified_node)] = get_weight[transition][(modified_node, nbr)]
                         
-                    if transition[0] == (nbr_status, old_status):
+                    if transition[0] == (nbr_status, old_status) and nbr != modified_node:
                         potential_transitions[transition].remove((nbr, modified_node))
-                    if transition[0] == (old_status, nbr_status):
+                    if transition[0] == (old_status, nbr_old_status):
                         potential_transitions[transition].remove((modified_node, nbr))
                     
-                    if transition[0] == (nbr_status, status[modified_node]):
+                    if transition[0] == (nbr_status, status[modified_node]) and nbr != modified_node:
                         potential_transitions[transition].update((nbr, modified_node), weight_increment = get_weight[transition][(nbr, modified_node)])
                     if transition[0] == (status[modified_node], nbr_status):
                         potential_transitions[transition].update((modified_node, nbr), weight_increment = get_weight[transition][(modified_node, nbr)])
